@@ -227,5 +227,18 @@ void replay(Options const& o, Shim* s, Recorder& rec)
     report("shape/loop", info.op, ea, eb, out);
     }
   }
+bool judge01(Shim* s, Recorder& rec, std::string const& kind, std::vector<u64> const& a, u64 value, u64 idx)
+  {
+  i64 x, y; int op;
+  if( kind == "bin" && a.size() == 3 && (a[0] == B_ADD || a[0] == B_SUB || a[0] == B_ADDEQ || a[0] == B_SUBEQ) ) { op = static_cast<int>(a[0]); x = static_cast<i64>(a[1]); y = static_cast<i64>(a[2]); }
+  else if( kind == "un" && a.size() == 2 && (a[0] == U_ADDEQ_SELF || a[0] == U_SUBEQ_SELF) ) { op = a[0] == U_ADDEQ_SELF ? B_ADDEQ : B_SUBEQ; x = y = static_cast<i64>(a[1]); }
+  else return false;
+  if( !fx_finite(x) || !fx_finite(y) ) return true;      // outside the property's domain
+  i64 got = static_cast<i64>(value);
+  Verdict v = oracle(op, x, y, got);
+  if( !v.ok ) rec.viol(cls_for(rec, op, "constexpr", vkind(v)), idx, [&]{ return mk(s, "constant evaluation", op, x, y, got, v, "judge", {}); });
+  return true;
+  }
 }
 REGISTER_PROPERTY(C01, explore, replay)
+REGISTER_JUDGE(C01, judge01)
